@@ -152,7 +152,8 @@ func (x *Exec) val(st *State, v ssa.Value) Val {
 		x.notePtr("G."+c.Name(), t)
 		return Val{K: VFieldPtr, Field: "G." + c.Name(), Base: "0", ESort: sortOf(t), Ty: c.Type()}
 	case *ssa.Function:
-		return Val{K: VFunc, Fn: c, Ty: c.Type()}
+		// a function constant is also a (positive, interned) reference so that it can be stored and compared
+		return Val{K: VFunc, Fn: c, Ty: c.Type(), T: num(int64(x.v.funcID(c.String()))), S: SInt}
 	case *ssa.Builtin:
 		return Val{K: VNone}
 	case *ssa.FreeVar:
@@ -379,7 +380,7 @@ func (x *Exec) named(st *State, v Val, hint string) Val {
 func (x *Exec) storeTo(st *State, p Val, v Val, elemT types.Type) {
 	switch p.K {
 	case VFieldPtr:
-		if v.K != VTerm {
+		if v.K != VTerm && !((v.K == VFunc || v.K == VClosure) && v.T != "") {
 			x.errorf("store of composite into field pointer")
 			return
 		}
@@ -716,7 +717,7 @@ func (x *Exec) stepValue(st *State, ins ssa.Instruction, v ssa.Value) bool {
 		ref := x.allocRef(st, "map")
 		mt := i.Type().Underlying().(*types.Map)
 		es := sortOf(mt.Elem())
-		name := "map." + es
+		name := mapName(mt.Elem())
 		st.setH(name, "(Array Int "+es+")", store(st.H(name, "(Array Int "+es+")"), ref, x.zeroTerm("(Array Int "+es+")")))
 		st.setH("map.dom", "(Array Int Bool)", store(st.H("map.dom", "(Array Int Bool)"), ref, "((as const (Array Int Bool)) false)"))
 		set(term(ref, SInt, i.Type()))
@@ -1172,7 +1173,7 @@ func (x *Exec) makeSlice(st *State, i *ssa.MakeSlice) {
 
 func (x *Exec) mapArrays(st *State, mt *types.Map) (content, csort string) {
 	es := sortOf(mt.Elem())
-	return "map." + es, "(Array Int " + es + ")"
+	return mapName(mt.Elem()), "(Array Int " + es + ")"
 }
 
 func (x *Exec) lookup(st *State, i *ssa.Lookup) {
@@ -1298,6 +1299,31 @@ func (x *Exec) envFor(st *State) *Env {
 func (x *Exec) loopEnv(st *State, head *ssa.BasicBlock) *Env {
 	e := x.envFor(st)
 	fr := st.top()
+	// entry values of parameters stay reachable through old(); the loop head's phis carry the
+	// current values of variables (including reassigned parameters) and shadow them
+	e.oldVars = map[string]Val{}
+	for _, p := range fr.fn.Params {
+		e.oldVars[p.Name()] = e.vars[p.Name()]
+	}
+	for _, ins := range head.Instrs {
+		phi, ok := ins.(*ssa.Phi)
+		if !ok {
+			break
+		}
+		if phi.Comment != "" {
+			if pv, ok := fr.vals[phi]; ok {
+				e.vars[phi.Comment] = pv
+			}
+		}
+	}
+	// the map iterator driving a range loop is visible to invariants as $iter (see seen(k))
+	for _, ins := range head.Instrs {
+		if n, ok := ins.(*ssa.Next); ok {
+			if iv, ok := fr.vals[n.Iter]; ok {
+				e.vars["$iter"] = iv
+			}
+		}
+	}
 	// any named value (phi comments, allocs) currently defined
 	for v, val := range fr.vals {
 		name := ""
@@ -1402,6 +1428,7 @@ func (x *Exec) loopEnter(st *State, ord int, from, to *ssa.BasicBlock) bool {
 	if err != nil {
 		x.errorf("%s loop %d modifies: %v", shortName(fr.fn), ord, err)
 	}
+	al.snap = st.snapshot() // state on loop entry: the frame of all iterations is stated relative to it
 	x.applyHavoc(st, ts, st.now, al)
 	// allocation clock may advance
 	n := x.fresh("now", SInt)
@@ -1410,7 +1437,6 @@ func (x *Exec) loopEnter(st *State, ord int, from, to *ssa.BasicBlock) bool {
 	for phi, v := range hv {
 		fr.vals[phi] = v
 	}
-	al.snap = st.snapshot()
 	// 3. assume invariants in the havocked state
 	env2 := x.loopEnv(st, to)
 	for _, inv := range spec.Invs {
@@ -1451,12 +1477,24 @@ func (x *Exec) loopBack(st *State, al *activeLoop, from, to *ssa.BasicBlock) {
 			x.emit(st, "loop", fmt.Sprintf("loop%d.dec", al.ord), and(app("<", d.T, al.decr), app(">=", al.decr, "0")),
 				x.termTags(), "variant decreases and is bounded below: "+al.spec.DecSrc, token.NoPos)
 		}
+	} else if isMapRangeLoop(al.head) {
+		// `for k := range m`: terminates by Go semantics (finite map, every key visited once); recorded as trusted
+		x.v.noteIntrinsic(x.shortFn(x.fn), "termination of range-over-map loops (Go semantics)")
 	} else {
 		x.emit(st, "loop", fmt.Sprintf("loop%d.dec", al.ord), "false", x.termTags(), "loop has no variant", token.NoPos)
 	}
 	// frame of the loop body
 	x.frameCheck(st, al.snap, al.targets, al.whole, fmt.Sprintf("loop%d.frame", al.ord), nil)
 	_ = fr
+}
+
+func isMapRangeLoop(head *ssa.BasicBlock) bool {
+	for _, ins := range head.Instrs {
+		if n, ok := ins.(*ssa.Next); ok && !n.IsString {
+			return true
+		}
+	}
+	return false
 }
 
 func (x *Exec) termTags() []string {
